@@ -2617,6 +2617,20 @@ class KmipEngine(object):
                     encryption_key_uuid
                 ))
 
+                if managed_object._object_type in [
+                    enums.ObjectType.CERTIFICATE,
+                    enums.ObjectType.OPAQUE_DATA
+                ]:
+                    raise exceptions.IllegalOperation(
+                        "Key wrapping is not supported for {0} "
+                        "objects.".format(
+                            ''.join(
+                                [x.capitalize() for x in
+                                 object_type.split('_')]
+                            )
+                        )
+                    )
+
                 result = self._cryptography_engine.wrap_key(
                     key_material=managed_object.value,
                     wrapping_method=key_wrapping_spec.wrapping_method,
